@@ -125,6 +125,21 @@ def _install_wrappers():
     wrap_request("UPDATE", "update_order")
     wrap_request("REPLACE", "replace_order")
 
+    from flumine.strategy.runnercontext import RunnerContext
+
+    for name in ("place", "reset"):
+
+        def mk(orig, name):
+            def wrapper(self, *a, **k):
+                r = orig(self, *a, **k)
+                if CUR is not None:
+                    _dispatch("ctx_" + name, self)
+                return r
+
+            return wrapper
+
+        setattr(RunnerContext, name, mk(getattr(RunnerContext, name), name))
+
     orig_exec = Transaction.execute
 
     def txn_execute(self):
@@ -719,7 +734,7 @@ class Monitor:
 HOOKS = (
     "order_created status_before status request_before request_after txn_execute_before txn_execute txn_exit package exec_before "
     "exec_after before_matching after_matching add_transaction results close_before close_after "
-    "remove_market strategy_call strategy_closed log update_start update_end begin end control_error scripted_control_called"
+    "remove_market strategy_call strategy_closed log update_start update_end begin end control_error scripted_control_called ctx_place ctx_reset"
 ).split()
 
 SITE_OWNERS = (
